@@ -20,7 +20,9 @@ QuickSlices == <<
   \* memory n.t G for n in 0..17, n.t M, storage n.t G / M, hand picked forms and attribute variants
   UnitsSlice("D", << CpuEdge, CpuFam("dec", 10, 300), CpuFam("dec", 1990, 2110), CpuFam("dec", 4000, 4100),
                      CpuFam("dec", 8000, 8200), CpuFam("dec3", 1000, 1020), MemForms, MemFam("G", 0, 17),
-                     MemFam("M", 4, 8), StorageForms, StorageFam("G", 0, 20), StorageFam("M", 4, 8), AttrForms >>) >>
+                     MemFam("M", 4, 8), StorageForms, StorageFam("G", 0, 20), StorageFam("M", 4, 8), AttrForms >>),
+  \* S: seeded sample of the large structural space
+  BigSlice("S", Samples) >>
 
 ASSUME ExportDocs(Slices)
 =============================================================================
